@@ -70,6 +70,7 @@ class Obj:
     def __init__(self, name: str | None) -> None:
         self.input = name          # reads of unset fields yield ('var', '<name>.<field>'); None = output only
         self.fields: dict[str, Any] = {}
+        self.newcls: str | None = None   # for objects made by X.__new__(X): '<self>' (the receiver's class) or a class name
 
 
 def _fld(attr: str) -> str:
@@ -77,10 +78,12 @@ def _fld(attr: str) -> str:
 
 
 class FormulaExec:
-    def __init__(self, where: str, env: dict[str, Any]) -> None:
+    def __init__(self, where: str, env: dict[str, Any], C: 'Classes | None' = None, depth: int = 0) -> None:
         self.where = where
         self.env = dict(env)
         self.ret: Any = None
+        self.C = C
+        self.depth = depth
 
     def err(self, node: ast.AST, msg: str):
         raise TranslateError(f'{self.where}: line {getattr(node, "lineno", "?")}: {msg}: `{ast.unparse(node)[:80]}`')
@@ -99,6 +102,8 @@ class FormulaExec:
             self.err(n, 'unsupported constant')
         if isinstance(n, ast.Name):
             if n.id not in self.env:
+                if self.C is not None and self.C.name(n.id) in self.C.cls:
+                    return ('clsname', self.C.name(n.id))
                 self.err(n, 'unknown name')
             return self.env[n.id]
         if isinstance(n, ast.Attribute):
@@ -151,9 +156,28 @@ class FormulaExec:
                 self.err(n, 'unsupported math function')
             if isinstance(f, ast.Attribute) and f.attr == '__new__' and len(n.args) == 1:
                 c = self.ev(f.value)
-                if c == ('cls',) and self.ev(n.args[0]) == ('cls',):
-                    return Obj(None)
+                if isinstance(c, tuple) and c and c[0] in ('cls', 'clsname') and self.ev(n.args[0]) == c:
+                    o = Obj(None)
+                    o.newcls = '<self>' if c[0] == 'cls' else c[1]
+                    return o
                 self.err(n, '__new__ on something that is not the class')
+            if isinstance(f, ast.Attribute) and self.C is not None and not f.attr.startswith('__'):
+                recv = self.ev(f.value)
+                if (isinstance(recv, Obj) and recv.input == 's') or recv == ('cls',):
+                    found = self.C.method('Matrix', f.attr)
+                    f2 = self.C.method('FrozenMatrix', f.attr)
+                    if found is None or f2 is None or found[1] is not f2[1]:
+                        self.err(n, 'helper is not one shared MatrixBase method')
+                    fn = found[1]
+                    is_cm = any(isinstance(d, ast.Name) and d.id == 'classmethod' for d in fn.decorator_list)
+                    ps = _params(fn)
+                    args = [self.ev(a) for a in n.args]
+                    if len(ps) != len(args) + 1 or self.depth > 3:
+                        self.err(n, 'helper arity / inlining depth')
+                    sub = FormulaExec(f'{self.where}>{fn.name}', dict(zip(ps, [('cls',) if is_cm else recv] + args)),
+                                      self.C, self.depth + 1)
+                    sub.run(_single_path(fn, sub.where))
+                    return sub.ret
             if isinstance(f, ast.Name) and f.id == 'type' and len(n.args) == 1 and isinstance(self.ev(n.args[0]), Obj):
                 return ('cls',)
             self.err(n, 'unsupported call')
@@ -361,7 +385,7 @@ def extract_formulas(C: Classes) -> dict[str, Any]:
         ps = _params(fn)
         if len(ps) != 2:
             raise TranslateError(f'from_{nm}: signature')
-        ex = FormulaExec(f'from_{nm}', {ps[0]: ('cls',), ps[1]: ('var', nm)})
+        ex = FormulaExec(f'from_{nm}', {ps[0]: ('cls',), ps[1]: ('var', nm)}, C)
         ex.run(_single_path(fn, f'from_{nm}'))
         F[f'from_{nm}'] = _mat_of(ex.ret, f'from_{nm}')
     # from_angle: two live paths (Angle object / three floats)
@@ -377,7 +401,7 @@ def extract_formulas(C: Classes) -> dict[str, Any]:
             raise TranslateError('from_angle: first test is not isinstance(pitch, AngleBase)')
         is_obj = first[1]
         env = {ps[0]: ('cls',), 'pitch': ('param', 'pitch'), 'yaw': ('var', 'yaw'), 'roll': ('var', 'roll')}
-        ex = FormulaExec('from_angle', env)
+        ex = FormulaExec('from_angle', env, C)
         ex.run(stmts)
         m = _mat_of(ex.ret, 'from_angle')
         fv = set()
@@ -398,13 +422,13 @@ def extract_formulas(C: Classes) -> dict[str, Any]:
     ps = _params(fn)
     body = _single_path(fn, '_mat_mul')
     s, o = Obj('s'), Obj('o')
-    ex = FormulaExec('_mat_mul', {ps[0]: s, ps[1]: o})
+    ex = FormulaExec('_mat_mul', {ps[0]: s, ps[1]: o}, C)
     ex.run(body)
     if o.fields:
         raise TranslateError('_mat_mul stores into its argument')
     F['mat_mul'] = _mat_of(s, '_mat_mul')
     s = Obj('s')
-    ex = FormulaExec('_mat_mul(alias)', {ps[0]: s, ps[1]: s})
+    ex = FormulaExec('_mat_mul(alias)', {ps[0]: s, ps[1]: s}, C)
     ex.run(body)
     F['mat_mul_self'] = _mat_of(s, '_mat_mul(alias)')
     F['mat_mul_alias_safe'] = F['mat_mul_self'] == [_subst(e, lambda v: 's.' + v[2:] if v.startswith('o.') else v)
@@ -413,7 +437,7 @@ def extract_formulas(C: Classes) -> dict[str, Any]:
     fn = meth('_vec_rot')
     ps = _params(fn)
     s, v = Obj('s'), Obj('v')
-    ex = FormulaExec('_vec_rot', {ps[0]: s, ps[1]: v})
+    ex = FormulaExec('_vec_rot', {ps[0]: s, ps[1]: v}, C)
     ex.run(_single_path(fn, '_vec_rot'))
     if s.fields or set(v.fields) != set(VEC_FIELDS):
         raise TranslateError('_vec_rot: must store exactly _x,_y,_z of its argument')
@@ -421,28 +445,12 @@ def extract_formulas(C: Classes) -> dict[str, Any]:
     # transpose
     fn = meth('transpose')
     s = Obj('s')
-    ex = FormulaExec('transpose', {_params(fn)[0]: s})
+    ex = FormulaExec('transpose', {_params(fn)[0]: s}, C)
     ex.run(_single_path(fn, 'transpose'))
     if s.fields:
         raise TranslateError('transpose modifies self')
     F['transpose'] = _mat_of(ex.ret, 'transpose')
-    # Matrix.copy / FrozenMatrix.copy / thaw / freeze (needed by the dispatch executor)
     F['copy_kind'] = {}
-    for c in ('Matrix', 'FrozenMatrix'):
-        k, fn = C.method(c, 'copy')
-        body = [s_ for s_ in fn.body if not _is_docstring(s_)]
-        if len(body) == 1 and ast.unparse(body[0]) == 'return self':
-            F['copy_kind'][c] = 'alias'
-            continue
-        s = Obj('s')
-        ex = FormulaExec(f'{c}.copy', {_params(fn)[0]: s, **{a: ('cls',) for a in list(C.alias) + list(C.cls)}})
-        ex.run(_single_path(fn, f'{c}.copy'))
-        if s.fields or _mat_of(ex.ret, f'{c}.copy') != [('var', f's.{f}') for f in MAT_FIELDS]:
-            raise TranslateError(f'{c}.copy: neither `return self` nor a field-for-field fresh copy')
-        new = [n for n in ast.walk(fn) if isinstance(n, ast.Attribute) and n.attr == '__new__']
-        if len(new) != 1 or not isinstance(new[0].value, ast.Name) or C.name(new[0].value.id) != c:
-            raise TranslateError(f'{c}.copy: the copy is not created as {c}')
-        F['copy_kind'][c] = 'fresh'
     # _to_angle
     fn = meth('_to_angle')
     ps = _params(fn)
@@ -455,13 +463,13 @@ def extract_formulas(C: Classes) -> dict[str, Any]:
             raise TranslateError('_to_angle: expected one comparison guarding the gimbal-lock branch')
         test, taken = conds[0]
         s, a = Obj('s'), Obj(None)
-        ex = FormulaExec('_to_angle', {ps[0]: s, ps[1]: a})
+        ex = FormulaExec('_to_angle', {ps[0]: s, ps[1]: a}, C)
         ex.run(stmts)
         if ex.ret is not a or s.fields or set(a.fields) != set(ANG_FIELDS):
             raise TranslateError('_to_angle: must store _pitch,_yaw,_roll of its argument and return it')
         # the guard is evaluated in the environment at the point of the test = the common prefix; all names it uses
         # are assigned before the `if`, and assignments after it cannot change them in straight-line SSA-like code:
-        gex = FormulaExec('_to_angle', {ps[0]: Obj('s'), ps[1]: Obj(None)})
+        gex = FormulaExec('_to_angle', {ps[0]: Obj('s'), ps[1]: Obj(None)}, C)
         pre = []
         for st in fn.body:
             if isinstance(st, ast.If):
@@ -496,6 +504,33 @@ def extract_formulas(C: Classes) -> dict[str, Any]:
         ta['main' if taken else 'lock'] = comps
     F['to_angle'] = ta
     return F
+
+
+def classify_copy(C: Classes, F: dict[str, Any], cls: str, meth: str) -> tuple[str, str]:
+    """What does the zero-argument matrix method cls.meth() return: ('alias', cls) = self itself, or ('fresh', K) = a
+    new object of class K holding exactly self's nine values?  Decided by symbolic execution of its body."""
+    key = f'{cls}.{meth}'
+    if key in F['copy_kind']:
+        return tuple(F['copy_kind'][key])
+    found = C.method(cls, meth)
+    if found is None:
+        raise TranslateError(f'{key}: no such method')
+    owner, fn = found
+    body = [s_ for s_ in fn.body if not _is_docstring(s_)]
+    if len(body) == 1 and ast.unparse(body[0]) == 'return self':
+        res = ('alias', cls)
+    else:
+        s = Obj('s')
+        ex = FormulaExec(key, {_params(fn)[0]: s}, C)
+        ex.run(_single_path(fn, key))
+        if s.fields or _mat_of(ex.ret, key) != [('var', f's.{f}') for f in MAT_FIELDS]:
+            raise TranslateError(f'{key}: neither `return self` nor a field-for-field new matrix')
+        k = cls if ex.ret.newcls == '<self>' else ex.ret.newcls
+        if k not in ('Matrix', 'FrozenMatrix'):
+            raise TranslateError(f'{key}: cannot tell the class of the new matrix')
+        res = ('fresh', k)
+    F['copy_kind'][key] = list(res)
+    return res
 
 
 def _coq_mat(name: str, args: str, m: list[Any]) -> str:
@@ -645,9 +680,10 @@ class Dispatch:
                     self.trace.append('from_angle')
                     return self.fresh('Matrix', ('FromAngle', a.val))
                 recv = self.obj(f.value, env)
-                if m == 'copy' and not n.args and KIND.get(recv.cls) == 'M':
-                    self.trace.append(f'{recv.cls}.copy')
-                    return recv if self.F['copy_kind'][recv.cls] == 'alias' else self.fresh(recv.cls, recv.val)
+                if not n.args and KIND.get(recv.cls) == 'M' and self.C.method(recv.cls, m) is not None:
+                    how, k = classify_copy(self.C, self.F, recv.cls, m)
+                    self.trace.append(f'{recv.cls}.{m}:{how}')
+                    return recv if how == 'alias' else self.fresh(k, recv.val)
                 if m == '_to_angle' and len(n.args) == 1 and KIND.get(recv.cls) == 'M':
                     tgt = self.obj(n.args[0], env)
                     if KIND.get(tgt.cls) != 'A':
